@@ -1,4 +1,5 @@
 mod c18;
+mod c19;
 mod common;
 
 use vlib::util::*;
@@ -29,6 +30,7 @@ fn main() {
         let v: serde_json::Value = serde_json::from_str(&txt).unwrap_or_else(|e| machinery_fail(&format!("parse {path}: {e}")));
         let ok = match id.as_str() {
             "C18" => c18::replay(&v["case"]),
+            "C19" => c19::replay(&v["case"]),
             _ => machinery_fail("no replay for this id"),
         };
         if ok {
@@ -41,6 +43,7 @@ fn main() {
     let run = Run::start(&id, &tier);
     match id.as_str() {
         "C18" => c18::run(run),
+        "C19" => c19::run(run),
         _ => machinery_fail("unknown property id"),
     }
 }
